@@ -39,6 +39,10 @@ def _generator(t, last, this, cap, which):
         return None
 
 
+class RecordMismatch(Exception):
+    """the trace simulate() returned is not the record of the run that was just made"""
+
+
 def record_run(spec):
     """run the implementation; returns (line for the model driver, snapshots, events, eigh contract monitors)"""
     import mudslide
@@ -84,6 +88,11 @@ def record_run(spec):
     tr = t.simulate()
     snaps = list(tr)
     steps = len(snaps) - 1
+    if steps != len(caps) or len(elecs) != steps + 1:
+        # e.g. a trace object shared between trajectories (a mutable default): the second run of a process returns the first run's
+        # snapshots too
+        raise RecordMismatch("simulate() returned a trace with %d snapshots for a run of %d steps (%d electronic propagations, %d model "
+                             "updates; max_steps=%d): the trace is not the record of this run" % (len(snaps), len(caps), len(caps), len(elecs), K))
     op = {"TrajectorySH": "shrun", "Ehrenfest": "ehrun", "TrajectoryCum": "cumrun"}[cls]
     line = [op, N, n, steps] + fbs(model.mass) + [fb(spec["dt"])] + fbs(spec["x0"]) + fbs(np.array(spec["p0"]) / model.mass) + \
         cbs(rho0) + [spec["state"], fb(spec["t0"])] + ([fb(z0)] if cls == "TrajectoryCum" else [])
@@ -159,7 +168,11 @@ def oracle_whole_run(args):
             out = Model().run([line])[0]
             prob, st = compare_afssh(spec, out, states, hop_ev, col_ev, caps, mass)
     else:
-        line, snaps, events, mon, mass = record_run(spec)
+        try:
+            for _rep in range(int(spec.get("repeat", 1))):      # (state shared between trajectories shows from the second run on)
+                line, snaps, events, mon, mass = record_run(spec)
+        except RecordMismatch as e:
+            return False, {"problem": str(e)}, {"problem": None}, str(e)
         out = Model().run([line])[0]
         prob, st = compare(spec, out, snaps, events, mass)
     return prob is None, dict(st, problem=prob), {"problem": None}, prob or "ok"
@@ -169,6 +182,13 @@ def _guarded_record(ctx, label, spec, fn):
     """record one run of the implementation; if the implementation itself raises, that run is a failing input"""
     try:
         return fn(spec)
+    except RecordMismatch:
+        spec = dict(spec, repeat=2)
+        ok, obs, req, text = oracle_whole_run(spec)
+        ctx.case(None)
+        if not ok:
+            ctx.oracle_fail(label + "-trace-not-this-run", "whole_run", spec, obs, req, text)
+        return None
     except Exception as e:  # noqa
         if not raised_in_repo(e):
             raise
